@@ -210,7 +210,7 @@ func c01pubAlphabet(thorough bool) []string {
 				for tit := uint8(0); tit < 4; tit++ {
 					for _, tid := range tids {
 						for _, mid := range []uint16{0, 1, 2} {
-							for _, pl := range []string{"", "p"} {
+							for _, pl := range []string{"", "\x00\xffp\x00"} {
 								a = append(a, gw.EvC(fmt.Sprintf("PUBLISH{dup=%t q=%d ret=%t tit=%d tid=%d mid=%d pl=%q}", dup, qos, ret, tit, tid, mid, pl),
 									gw.Publish(tit, tid, mid, qos, dup, ret, pl)))
 							}
